@@ -772,6 +772,12 @@ func (s *State) Commit(repo gitstore.Storer, commitMessage string, createRSLEntr
 				return repo.ResetDueToError(err, PolicyStagingRef, originalCommitID)
 			}
 
+			// The reference did not exist before: remove it again, so that
+			// it isn't left pointing to a commit the RSL has no record of
+			if deleteErr := repo.DeleteReference(PolicyStagingRef); deleteErr != nil {
+				return errors.Join(err, deleteErr)
+			}
+
 			return err
 		}
 	}
@@ -867,6 +873,12 @@ func Apply(ctx context.Context, repo gitstore.Storer, signRSLEntry bool) error {
 	if err := rsl.NewReferenceEntry(PolicyRef, policyStagingTip).Commit(repo, signRSLEntry); err != nil {
 		if !policyTip.IsZero() {
 			return repo.ResetDueToError(err, PolicyRef, policyTip)
+		}
+
+		// The reference did not exist before: remove it again, so that it
+		// isn't left pointing to a commit the RSL has no record of
+		if deleteErr := repo.DeleteReference(PolicyRef); deleteErr != nil {
+			return errors.Join(err, deleteErr)
 		}
 
 		return err
